@@ -139,3 +139,16 @@ package roles
 //@      len(result) == 3 && result[0] == "url" && result[1] == r.NonResourceURL && result[2] == r.Verb
 //@ ensures [C18:resource-rule-is-keyed-by-group-resource-name-verb] r.NonResourceURL == "" ==>
 //@      len(result) == 5 && result[0] == "resource" && result[1] == r.APIGroup && result[2] == r.Resource && result[3] == r.ResourceName && result[4] == r.Verb
+
+// C18 (a role that grants more than it should is rewritten): an existing ClusterRole is left
+// alone only when its labels and its rules are equal to the rendered ones - not when they
+// merely contain them.
+//@ func roles.ClusterRolesDiffer
+//@ props C18
+//@ requires typeis(current, *rbacv1.ClusterRole) && typeis(desired, *rbacv1.ClusterRole) && as(current, *rbacv1.ClusterRole) != nil && as(desired, *rbacv1.ClusterRole) != nil
+//@ ghost compares int = 0
+//@ let $last = result cmp.Equal
+//@ site cmp.Equal($a, $b, $co...) as compare
+//@   assert [C18:roles-are-compared-strictly-labels-then-rules] len($co) == 0 && compares <= 1
+//@   update compares = compares + 1
+//@ ensures [C18:existing-role-is-kept-only-if-labels-and-rules-are-equal-to-the-rendered-ones] (result <==> !$last) && (!result ==> compares == 2)
